@@ -29,7 +29,14 @@ def blob_value(text, attrs):
     fmt = attrs.get("format")
     if text is None:
         return ("EMPTY", fmt)
-    return (base64.b64decode(text), fmt)
+    try:
+        raw = base64.b64decode(text, validate=True)
+        declared = int(attrs.get("size"))
+    except Exception:
+        return ("ANY",)  # undecodable payload / non-numeric size: the element may keep its value or not
+    if declared != len(raw):
+        return ("ANY",)  # inconsistent size: likewise not judged
+    return (raw, fmt)
 
 
 class Mirror:
@@ -88,7 +95,9 @@ class Mirror:
                         continue
                     old = pr.elements[en]
                     new = blob_value(ctext, ca) if K == "BLOB" else ctext
-                    if K == "BLOB":
+                    if K == "BLOB" and (new[0] == "ANY" or (old is not None and old[0] == "ANY")):
+                        may.append(("ValueUpdate", dev, name, en, old, new))
+                    elif K == "BLOB":
                         empty_old = old is None or old[0] == "EMPTY"
                         if new[0] == "EMPTY" and empty_old:
                             may.append(("ValueUpdate", dev, name, en, old, new))  # no BLOB before, none now
